@@ -42,6 +42,8 @@ type watchLine struct {
 	Late      bool     `json:"late"`      // the consumer was paused at some point
 	Closed    bool     `json:"closed"`    // the notification stream ended after cancellation
 	Watches   int      `json:"watches"`
+	Crashed   bool     `json:"crashed"` // written by the driver when the process was taken down during this scenario
+	Msg       string   `json:"msg"`
 }
 
 func inotifyWatches() int {
@@ -194,6 +196,11 @@ func runWatchScenario(root string, sc watchScenario) (watchLine, error) {
 			time.Sleep(2 * time.Millisecond)
 		}
 	}
+	if cancelled && atomic.LoadInt32(&paused) == 1 {
+		// shut down while the consumer is not reading (the application's consumer stops for good at shutdown): give
+		// the watcher's goroutines time to finish - or to fall over - before the consumer looks again
+		time.Sleep(300 * time.Millisecond)
+	}
 	atomic.StoreInt32(&paused, 0)
 	if !cancelled {
 		// two barriers: inotify preserves order, so once the second barrier's notification is in, everything
@@ -272,6 +279,11 @@ func cmdWatcher(args []string) error {
 	defer w.Flush()
 	enc := json.NewEncoder(w)
 	for _, sc := range scs {
+		if p := os.Getenv("VERIFH_CUR"); p != "" { // which scenario is running, should the runtime abort the process
+			w.Flush()
+			b, _ := json.Marshal(watchLine{Ev: "watcher", ID: sc.ID, Writes: []string{}, Crashed: true, Cancelled: true, Watches: 4})
+			os.WriteFile(p, b, 0o666)
+		}
 		// the watcher uses paths relative to the working directory: one scenario at a time
 		root := filepath.Join(args[1], fmt.Sprintf("w%d", sc.ID))
 		os.MkdirAll(root, 0o777)
